@@ -465,3 +465,84 @@ class TripletDecode(Contract):
 
 class _GlyfModule:
     GlyphCoordinates = _Coords
+
+
+# -- the hmtx transform (C04) ---------------------------------------------------------------------
+
+class _HGlyph:
+    pass
+
+
+@contract
+class WOFF2HmtxTransformRoundTrip(Contract):
+    """WOFF2HmtxTable.transform then reconstruct, 2 proportional + 2 monospaced glyphs (and the
+    all-proportional layout), advances / side bearings / glyph xMins symbolic: when transform
+    applies (at most one of the two side-bearing arrays is needed) the flags byte has bit 0 /
+    bit 1 set exactly for the array left out, its length is 1 + 2 bytes per advance and per
+    stored side bearing, and reconstruct returns exactly the metrics; when both arrays would be
+    needed it returns None (the table is stored untransformed); a glyph without outline counts
+    as xMin 0."""
+    module = "fontTools.ttLib.woff2"
+    qualname = "WOFF2HmtxTable.reconstruct"
+    props = ("C04", "C15")
+    rebind = staticmethod(lambda: std("struct", "len", "bytes", "array", "int"))
+    variants = ((2, 2), (3, 0), (1, 2))
+    level = "PF"
+
+    def args(self, S, variant):
+        nlong, nmono = variant
+        names = ["g%d" % i for i in range(nlong + nmono)]
+        glyf = {}
+        for i, n in enumerate(names):
+            g = _HGlyph()
+            if i != 1:
+                g.xMin = S.int(n + ".xMin", -32768, 32767)          # g1 is an empty glyph: no xMin attribute
+            glyf[n] = g
+        adv = [S.int("adv%d" % i, 0, 65535) for i in range(nlong)]
+        lsb = [S.int("lsb%d" % i, -32768, 32767) for i in range(nlong + nmono)]
+        metrics = {n: (adv[min(i, nlong - 1)], lsb[i]) for i, n in enumerate(names)}
+
+        class _Glyf(dict):
+            glyphOrder = names
+
+        class _Hhea:
+            numberOfHMetrics = nlong
+
+        class _Font:
+            def __init__(self):
+                self.t = {"glyf": _Glyf(glyf), "hhea": _Hhea()}
+
+            def __getitem__(self, k):
+                return self.t[k]
+
+            def getGlyphOrder(self):
+                return names
+        t = self.mod.WOFF2HmtxTable()
+        t.metrics = dict(metrics)
+        return dict(self=t, ttFont=_Font(), _metrics=metrics, _glyf=glyf, _names=names, _nlong=nlong)
+
+    def call(self, f, a):
+        cls = type(a.self)
+        data = cls.transform(a.self, a.ttFont)
+        if data is None:
+            return None, None
+        back = cls()
+        f(back, data, a.ttFont)
+        return data, back.metrics
+
+    @staticmethod
+    def _post(a, r):
+        data, back = r
+        xmin = lambda n: getattr(a._glyf[n], "xMin", 0)
+        need_long = Or(*[Not(eq(a._metrics[n][1], xmin(n))) for n in a._names[:a._nlong]])
+        need_mono = Or(*[Not(eq(a._metrics[n][1], xmin(n))) for n in a._names[a._nlong:]]) if a._names[a._nlong:] else False
+        if data is None:
+            return And(need_long, need_mono)
+        b = _items(data)
+        nmono = len(a._names) - a._nlong
+        size = 1 + 2 * a._nlong + Ite(need_long, 2 * a._nlong, 0) + Ite(need_mono, 2 * nmono, 0)
+        flags = Ite(need_long, 0, 1) + Ite(need_mono, 0, 2)
+        same = And(*[And(eq(back[n][0], a._metrics[n][0]), eq(back[n][1], a._metrics[n][1])) for n in a._names]) if set(back) == set(a._names) else False
+        return And(Not(And(need_long, need_mono)), eq(b[0], flags), eq(len(b), size), same)
+
+    ensures = [prop("transform-applies-exactly-when-allowed-and-reconstructs-the-metrics", lambda a, old, r: WOFF2HmtxTransformRoundTrip._post(a, r))]
